@@ -421,6 +421,21 @@ def _c08_any(kind, arg):
     return _c08_nautilus_job(arg)
 
 
+_c08_any.time_limited = True
+
+
+def _timeouts(prop, results):
+    out = []
+    for r in results:
+        if isinstance(r, dict) and r.get('timeout'):
+            out.append(dict(violations=[Violation(prop, 'hang:job', 'a job did not finish within {} s: {}'.format(
+                core.JOB_LIMIT_S, str(r['args'])[:300]), dict(kind='timeout'))], evaluations=0, distinct=0, rows=0,
+                sample=None, scenario='?', spec=dict(kind='timeout')))
+        else:
+            out.append(r)
+    return out
+
+
 def run_C08(tier):
     timer = core.Timer()
     jobs = [('union', sp) for sp in union_specs(tier)]
@@ -437,7 +452,7 @@ def run_C08(tier):
                     jobs.append(('nautilus', dict(family='wrapped' if per else 'two', n_networks=nn,
                                                   periodic=per, pool=pool, roundtrip=rt,
                                                   seed=core.SEED)))
-    res = core.pmap(_c08_any, jobs)
+    res = _timeouts('C08', core.pmap(_c08_any, jobs))
     violations = [v for r in res for v in r['violations']]
     unions = [r for r in res if 'M' in r]
     cov = dict(
@@ -620,6 +635,9 @@ def _c14_job(scn_dict, every, toggle):
                 scenario=scn.name)
 
 
+_c14_job.time_limited = True
+
+
 def run_C14(tier):
     timer = core.Timer()
     if tier == 'quick':
@@ -631,7 +649,7 @@ def run_C14(tier):
     for s in scenarios.get(names):
         jobs.append((dict(s), every, False))
         jobs.append((dict(s), every, True))
-    res = core.pmap(_c14_job, jobs)
+    res = _timeouts('C14', core.pmap(_c14_job, jobs))
     violations = [v for r in res for v in r['violations']]
     cov = dict(
         evaluations=sum(r['evaluations'] for r in res),
